@@ -178,6 +178,35 @@ func emitCdpFacts(repo string) (string, any, error) {
 	fmt.Fprintf(&sb, "/-- x/cdp/keeper/auctions.go AuctionCollateral: number of assignment statements in the body (3 = auction size, total, share; more = the shares are adjusted) -/\ndef cdpAuctionCollateralAssignments : Nat := %d\n\n", assigns)
 	facts["cdpDebtShareRounding"] = round
 	facts["cdpAuctionCollateralAssignments"] = fmt.Sprint(assigns)
+	// LiquidateCdps: comparison applied to `liquidationRatio` inside the function (the re-check of each
+	// selected CDP with the value ratio); "" = the index scan alone decides
+	{
+		lf, err := seizeGo.funcDecl("LiquidateCdps")
+		if err != nil {
+			return "", nil, err
+		}
+		cmp := ""
+		ast.Inspect(lf.Body, func(n ast.Node) bool {
+			call, ok := n.(*ast.CallExpr)
+			if !ok || len(call.Args) != 1 {
+				return true
+			}
+			sel, ok := call.Fun.(*ast.SelectorExpr)
+			if !ok {
+				return true
+			}
+			a, ok := call.Args[0].(*ast.Ident)
+			if ok && a.Name == "liquidationRatio" {
+				switch sel.Sel.Name {
+				case "LT", "LTE", "GT", "GTE":
+					cmp += sel.Sel.Name
+				}
+			}
+			return true
+		})
+		fmt.Fprintf(&sb, "/-- x/cdp/keeper/seize.go LiquidateCdps: a selected CDP is skipped when `valueRatio.<this>(liquidationRatio)` (empty = no re-check) -/\ndef cdpBlockRecheckSkips : String := %s\n\n", leanStr(cmp))
+		facts["cdpBlockRecheckSkips"] = cmp
+	}
 	// dump constant
 	e, err := aucGo.topValue("dump")
 	if err != nil {
